@@ -119,6 +119,9 @@ func verif_sameArray[T any](a, b []T) bool {
 }
 func verif_unfold[T any](x T) bool { return true }
 func verif_same[T any](a, b T) bool { return any(a) == any(b) }
+func verif_has[K comparable, V any](m map[K]V, k K) bool { _, ok := m[k]; return ok }
+func verif_fresh[T any](x T) bool { panic("verif: spec only") }
+func verif_rangeseen[K any](k K) bool { panic("verif: spec only") }
 func verif_entry[T any](x T) T { return x }
 func verif_offset[T any](s []T) int { panic("verif: spec only") }
 func verif_f64bits(x float64) verifInt { panic("verif: spec only") }
@@ -189,6 +192,27 @@ func declMatches(d *ast.FuncDecl, fc *FuncContract) bool {
 	}
 	id, ok := t.(*ast.Ident)
 	return ok && id.Name == fc.Recv && ptr == fc.RecvPtr
+}
+
+// litAsDecl views a function literal as a declaration (for loop and local-name collection).
+func litAsDecl(l *ast.FuncLit) *ast.FuncDecl {
+	return &ast.FuncDecl{Name: ast.NewIdent("lit"), Type: l.Type, Body: l.Body}
+}
+
+// topLits lists the function literals directly inside a declaration (not nested in another literal), in source order.
+func topLits(d *ast.FuncDecl) []*ast.FuncLit {
+	var lits []*ast.FuncLit
+	if d.Body == nil {
+		return nil
+	}
+	ast.Inspect(d.Body, func(c ast.Node) bool {
+		if l, ok := c.(*ast.FuncLit); ok {
+			lits = append(lits, l)
+			return false
+		}
+		return true
+	})
+	return lits
 }
 
 func collectLoops(d *ast.FuncDecl) []ast.Stmt {
@@ -358,6 +382,7 @@ func buildOverlay(pcs []*PkgContracts) (map[string][]byte, error) {
 			}
 		}
 		sb.WriteString(preludeSrc)
+		sb.WriteString(atomicPrelude(pc))
 		for _, s := range pc.Specs {
 			sb.WriteString("\n" + s + "\n")
 		}
@@ -396,11 +421,20 @@ func buildOverlay(pcs []*PkgContracts) (map[string][]byte, error) {
 					continue
 				}
 				for _, fc := range pc.Funcs {
-					if !declMatches(fd, fc) || fc.Anon > 0 {
+					if !declMatches(fd, fc) {
 						continue
 					}
-					locals := localNames(fd)
-					for k, lp := range collectLoops(fd) {
+					target := fd
+					if fc.Anon > 0 {
+						// loops of a function literal under contract (Name$k) are numbered within the literal
+						lits := topLits(fd)
+						if fc.Anon > len(lits) || len(fc.LoopInv)+len(fc.LoopDec)+len(fc.LoopHint)+len(fc.LoopMod) == 0 {
+							continue
+						}
+						target = litAsDecl(lits[fc.Anon-1])
+					}
+					locals := localNames(target)
+					for k, lp := range collectLoops(target) {
 						var vars []string
 						seen := map[string]bool{}
 						var clauses []*Clause
@@ -631,7 +665,7 @@ func (P *Program) resolve(fi *FuncInfo) error {
 			}
 			fi.sig = fi.fn.Signature
 			fi.obj = nil
-			fi.loops = nil
+			fi.loops = collectLoops(litAsDecl(fi.lit))
 		}
 		if r := fi.sig.Recv(); r != nil {
 			n := r.Name()
@@ -688,6 +722,39 @@ func typeSrc(t types.Type, pkg *types.Package) string {
 	})
 }
 
+// typeSrcErased prints a type for use at package scope: the type parameters of a generic interface
+// (which have no name there) are written as `any`.
+func typeSrcErased(t types.Type, pkg *types.Package) string {
+	switch x := types.Unalias(t).(type) {
+	case *types.TypeParam:
+		return "any"
+	case *types.Named:
+		n := x.TypeParams().Len()
+		if n > 0 {
+			base := typeSrc(x.Origin().Obj().Type(), pkg)
+			if i := strings.Index(base, "["); i >= 0 {
+				base = base[:i]
+			}
+			var as []string
+			for i := 0; i < n; i++ {
+				if x.TypeArgs().Len() == n {
+					as = append(as, typeSrcErased(x.TypeArgs().At(i), pkg))
+				} else {
+					as = append(as, "any")
+				}
+			}
+			return base + "[" + strings.Join(as, ", ") + "]"
+		}
+	case *types.Slice:
+		return "[]" + typeSrcErased(x.Elem(), pkg)
+	case *types.Pointer:
+		return "*" + typeSrcErased(x.Elem(), pkg)
+	case *types.Map:
+		return "map[" + typeSrcErased(x.Key(), pkg) + "]" + typeSrcErased(x.Elem(), pkg)
+	}
+	return typeSrc(t, pkg)
+}
+
 // checkClause type-checks a contract clause in the scope of its function.
 // kind: "pre" (params only), "post" (params+results), "loop" (at the marker of loop k)
 func (P *Program) checkClause(fi *FuncInfo, cl *Clause) (*CheckedExpr, error) {
@@ -697,8 +764,24 @@ func (P *Program) checkClause(fi *FuncInfo, cl *Clause) (*CheckedExpr, error) {
 	src := cl.Go
 	pos := token.NoPos
 	wrapParams := []string{}
+	loopPos := func() error {
+		if cl.Kind == "invariant" || cl.Kind == "decreases" || cl.Kind == "loopmod" {
+			if cl.Loop < 1 || cl.Loop > len(fi.loops) {
+				return fmt.Errorf("%s:%d: %s has no loop %d", cl.File, cl.Line, fi.fc.Key, cl.Loop)
+			}
+			b := loopBody(fi.loops[cl.Loop-1])
+			if len(b.List) == 0 {
+				return fmt.Errorf("loop %d has no marker", cl.Loop)
+			}
+			pos = b.List[0].End() + 1
+		}
+		return nil
+	}
 	if fi.lit != nil {
 		pos = fi.lit.Body.Lbrace + 1
+		if err := loopPos(); err != nil {
+			return nil, err
+		}
 	} else if fi.decl != nil {
 		pos = fi.decl.Body.Lbrace + 1
 		if cl.Kind == "invariant" || cl.Kind == "decreases" || cl.Kind == "loopmod" {
@@ -718,11 +801,17 @@ func (P *Program) checkClause(fi *FuncInfo, cl *Clause) (*CheckedExpr, error) {
 	} else {
 		// interface method: evaluate at package scope of the file that declares the interface
 		for i, n := range fi.params {
-			wrapParams = append(wrapParams, n+" "+typeSrc(fi.ptypes[i], fi.pkg.Types))
+			wrapParams = append(wrapParams, n+" "+typeSrcErased(fi.ptypes[i], fi.pkg.Types))
 		}
 		o := fi.pkg.Types.Scope().Lookup(fi.fc.Recv)
 		pos = o.Pos()
 		// NOTE: package-scope position; file scope (imports) is that of the declaring file
+	}
+	if cl.Kind == "monitor" {
+		wrapParams = append(wrapParams, "monSelf "+cl.MonType)
+	}
+	if cl.Kind == "cas" && len(fi.pc.AtomicCells) > 0 {
+		wrapParams = append(wrapParams, "casOld "+fi.pc.AtomicCells[0].Type, "casNew "+fi.pc.AtomicCells[0].Type)
 	}
 	if cl.Kind == "ensures" || cl.Kind == "panics" {
 		rs := fi.sig.Results()
